@@ -130,6 +130,14 @@ def run(chk):
     attrs = {norm_text(x) for x in ast.walk(f.node) if isinstance(x, ast.Attribute) and isinstance(x.ctx, ast.Load) and isinstance(x.value, ast.Name) and x.value.id == "self"}
     chk.ob("R19.2", "_maybe_precompute: returns at once unless generator flag set and table empty; reads only coords/order/curve", okg and attrs <= {"self.__generator", "self.__precompute", "self.__order", "self.__coords", "self.__curve"},
            loc=f.qname, key="C19|R19.2|precompute-guard", detail="_maybe_precompute is not guarded by (generator flag, empty table) or reads other state: %s" % sorted(attrs))
+    apps = [n_ for n_ in ast.walk(f.node) if isinstance(n_, ast.Call) and isinstance(n_.func, ast.Attribute) and n_.func.attr == "append"]
+    okaff = bool(apps)
+    for a_ in apps:
+        e = a_.args[0] if a_.args else None
+        okaff &= isinstance(e, ast.Tuple) and len(e.elts) == 2 and all(isinstance(x, ast.Call) and isinstance(x.func, ast.Attribute) and not x.args for x in e.elts) and \
+            [x.func.attr for x in e.elts] == ["x", "y"] and norm_text(e.elts[0].func.value) == norm_text(e.elts[1].func.value)
+    chk.ob("R19.2", "_maybe_precompute: every table entry is the affine (x(), y()) of a point, i.e. independent of the scaling the point had when the table was built", okaff, loc=f.qname, key="C19|R19.2|table-affine",
+           detail="a table entry is taken from raw projective coordinates: later products depend on whether the point was scaled before its first multiplication")
     # VerifyingKey.precompute provenance
     fa = p.func("ellipticcurve:PointJacobi.from_affine")
     rets = [n for n in ast.walk(fa.node) if isinstance(n, ast.Return)]
